@@ -38,6 +38,30 @@ CHECKS = {
         design="§7 C14",
         note="Polynomial arithmetic of the code (+=, -=, *=[j,-1], scalar *=, evaluate) is modelled literally on coefficient lists, G1 points by discrete logs. Hypotheses: d+alpha <> 0 for deleted elements (code panics otherwise), d_D(y) <> 0, y+alpha <> 0 for uniqueness. Model executed on Bignums BigZ mod r.",
         technique="Coq theorems (field/ring tactics + list induction over batches and histories) + differential correspondence with exact point comparison"),
+    "C01": dict(
+        text="PARTIAL. Theorems for every presentation object and every outcome of the challenge comparison: acceptance implies that each signature statement is matched with a signature proof under its own id (no other variant, not omitted), that its response vector has exactly hidden+2 entries (so the truncating multi-scalar multiplication cannot drop the challenge), that identity elements are rejected, that the Fiat-Shamir comparison was made on the recomputed items, and that the proof of knowledge passes; special soundness of both proofs of knowledge with explicit extractors is in C17. The reduction 'no signature => no accepting presentation' (q-SDH / PS assumption, forking lemma, ROM) is assumed, not proved. "
+             "Correspondence: external deviating prover (16 deviation kinds incl. the exploited hidden+3 response vector) x 5 schema shapes x BBS/PS against Presentation::verify and the Coq verifier model.",
+        design="§7 C01",
+        note="Computational assumptions (q-SDH, PS, ROM) are not carried by any theorem. Fiat-Shamir is symbolic; hash-derived bases carry pseudo-logs.",
+        technique="Coq theorems about an executable verifier model (dispatch/length/FS/PoK checks) + differential correspondence with an external adversarial prover"),
+    "C02": dict(
+        text="Theorems: for every accepted presentation and every signature statement, the proof's disclosed index list equals the requested index list (ascending, nothing missing, nothing extra), the reported map has the same number of entries, every requested label is reported and carries the scalar the proof of knowledge was verified with; a missing map entry is a rejection. That these scalars are the signed ones rests on C01/C17. "
+             "Correspondence: 13 deviation kinds on the reported map and on the proof's index list x 4 shapes x BBS/PS.",
+        design="§7 C02",
+        note="Labels are abstracted to claim indices through the statement's issuer schema; requested labels the issuer schema does not contain are ignored (the honest holder cannot disclose them; required by the repository's own revocation tests).",
+        technique="Coq theorems about the verifier model's disclosed-claim comparison + differential correspondence with deviating holders"),
+    "C05": dict(
+        text="Theorems: acceptance implies that the commitment verifier's hashed Schnorr commitment is computed with the response the referenced signature proof carries for the referenced claim; for the ascending disclosed list that acceptance forces, the index->slot walk pairs the k-th hidden index with response off+k and the proof of knowledge multiplies that response with the generator of the same index (walk = set semantics, proved by induction over the walk with a cursor invariant), so the lookup cannot be shifted. "
+             "Correspondence: substitute value with shared/independent nonce, omitted predicate proof, padded/reversed/aliased/shortened index lists, foreign inner id x 4 shapes x BBS/PS.",
+        design="§7 C05",
+        note="Modelled predicate kinds: commitment and equality; revocation/membership/encryption verifiers use the same extraction path (verify.rs) and are covered at protocol level by C06/C10.",
+        technique="Coq theorems (induction over the index walk; verifier model) + differential correspondence with deviating holders"),
+    "C09": dict(
+        text="Theorems: acceptance of an equality statement implies a non-empty reference list and one scalar v such that every referenced (signature statement, claim) yields response v through the checked extraction path; with special soundness (C17) equal responses under two challenges give equal extracted signed values. "
+             "Correspondence: 2..3 credentials, same/different issuers; unequal values with shared, independent and copied nonces, omitted equality proof, tampered referenced proofs; BBS/PS.",
+        design="§7 C09",
+        note="Extraction against arbitrary efficient provers is the usual ROM step (assumed).",
+        technique="Coq theorems about the verifier model's equality check + differential correspondence with deviating holders"),
 }
 
 PLANNED = {
